@@ -1224,6 +1224,8 @@ class ObjectDomain(EffectDomain):
                 else:
                     out.append(val(TOP, r.state))
             return out
+        if d == "staticmethod" and len(call.args) == 1 and not call.keywords:
+            return interp.eval(call.args[0], st, fr)   # staticmethod(f): looked up on the class or an instance it is f itself
         if d == "object" and not call.args and not call.keywords and not st.has(fr.local("object")):
             n = st.get("ev.inst", 0)
             return [val(("sym", f"<object #{n}>"), st.set("ev.inst", n + 1))]   # a fresh object: equal and identical to itself only
